@@ -518,11 +518,118 @@ pub fn decomp_cases(ctx: &Ctx, out: &mut Vec<Case>) {
     }
 }
 
+/// `VectorGadget`: every supported shape x every length 0..=M (all alignments of the payload),
+/// limits / padding flags / trim / resize / equality.
+pub fn vector_cases(ctx: &Ctx, out: &mut Vec<Case>) {
+    let mut rng = ctx.rng("vector");
+    let d = p(4, 8);
+    let shapes: Vec<(usize, usize)> = if ctx.thorough() {
+        crate::vecops::SHAPES.to_vec()
+    } else {
+        vec![(4, 1), (4, 2), (4, 4), (6, 3), (8, 4)]
+    };
+    let nz = |rng: &mut rand_chacha::ChaCha8Rng| -> F { F::from(rng.gen_range(1..1000u64)) };
+    for &(m, a) in &shapes {
+        for len in 0..=m {
+            let data: Vec<F> = (0..len).map(|_| nz(&mut rng)).collect();
+            let va = op("vassign", vec![N(m as u64), N(a as u64), N(len as u64)]);
+            // assign alone (range check of the length)
+            out.push(nd(case("vassign", d.clone(), vec![va.clone()], data.clone(), 0)));
+            // limits
+            let o = vec![va.clone(), op("vlimits", vec![V(0), N(m as u64), N(a as u64)])];
+            out.push(case("vlimits", d.clone(), o, data.clone(), 1));
+            // padding flags
+            let o = vec![va.clone(), op("vpad", vec![V(0), N(m as u64), N(a as u64)])];
+            out.push(case("vpad", d.clone(), o, data.clone(), 1));
+            // trim: every admissible number of elements (quick: a few)
+            let trims: Vec<usize> = if ctx.thorough() || m <= 4 {
+                (0..=len).collect()
+            } else {
+                let mut t = vec![0, len, len / 2, len.saturating_sub(1), 1.min(len), a.min(len)];
+                t.sort();
+                t.dedup();
+                t
+            };
+            for k in trims {
+                let o = vec![va.clone(), op("vtrim", vec![V(0), N(m as u64), N(a as u64), N(k as u64)])];
+                out.push(case("vtrim", d.clone(), o, data.clone(), 1));
+            }
+            // equality with a second vector: same data / one element changed / other length
+            let second = |rng: &mut rand_chacha::ChaCha8Rng, kind: usize| -> Vec<F> {
+                match kind {
+                    0 => data.clone(),
+                    1 => {
+                        let mut x = data.clone();
+                        if !x.is_empty() {
+                            let i = rng.gen_range(0..x.len());
+                            x[i] += F::ONE;
+                        }
+                        x
+                    }
+                    _ => {
+                        let l2 = if len == m { len - 1 } else { len + 1 };
+                        (0..l2).map(|i| data.get(i).copied().unwrap_or_else(|| F::from(7u64))).collect()
+                    }
+                }
+            };
+            for kind in 0..3 {
+                let d2 = second(&mut rng, kind);
+                let vb = op("vassign", vec![N(m as u64), N(a as u64), N(d2.len() as u64)]);
+                let mut inputs = data.clone();
+                inputs.extend(d2.iter().copied());
+                for name in ["viseq", "visneq"] {
+                    let o = vec![
+                        va.clone(),
+                        vb.clone(),
+                        op(name, vec![V(0), V(m + 1), N(m as u64), N(a as u64)]),
+                    ];
+                    out.push(case(name, d.clone(), o, inputs.clone(), 2));
+                }
+                let equal = d2 == data;
+                let o = vec![
+                    va.clone(),
+                    vb.clone(),
+                    op(if equal { "vaeq" } else { "vaneq" }, vec![V(0), V(m + 1), N(m as u64), N(a as u64)]),
+                ];
+                out.push(case(if equal { "vaeq" } else { "vaneq" }, d.clone(), o, inputs.clone(), 2));
+                // against a constant
+                for name in ["viseqf", "visneqf"] {
+                    let o = vec![va.clone(), op(name, vec![V(0), N(m as u64), N(a as u64), Cs(d2.clone())])];
+                    out.push(case(name, d.clone(), o, data.clone(), 1));
+                }
+                let o = vec![
+                    va.clone(),
+                    op(if equal { "vaeqf" } else { "vaneqf" }, vec![V(0), N(m as u64), N(a as u64), Cs(d2.clone())]),
+                ];
+                out.push(case(if equal { "vaeqf" } else { "vaneqf" }, d.clone(), o, data.clone(), 1));
+            }
+        }
+    }
+    // resize followed by limits / padding on the larger vector
+    for &((m, a), l) in crate::vecops::RESIZES {
+        if !ctx.thorough() && m > 4 {
+            continue;
+        }
+        for len in [0, 1, a, m - 1, m] {
+            let len = len.min(m);
+            let data: Vec<F> = (0..len).map(|_| nz(&mut rng)).collect();
+            let o = vec![
+                op("vassign", vec![N(m as u64), N(a as u64), N(len as u64)]),
+                op("vresize", vec![V(0), N(m as u64), N(a as u64), N(l as u64)]),
+                op("vlimits", vec![V(m + 1), N(l as u64), N(a as u64)]),
+                op("vpad", vec![V(m + 1), N(l as u64), N(a as u64)]),
+            ];
+            out.push(nd(case("vresize", d.clone(), o, data, 1)));
+        }
+    }
+}
+
 pub fn cases(ctx: &Ctx) -> Vec<Case> {
     let mut out = vec![];
     native_cases(ctx, &mut out);
     bit_cases(ctx, &mut out);
     decomp_cases(ctx, &mut out);
+    vector_cases(ctx, &mut out);
     let _ = F::NUM_BITS;
     out
 }
